@@ -1,5 +1,7 @@
-(* one merged event trace per line:  "tid kind inst msg|tid kind inst msg|..."  (kind: N C F T G Q; msg = message id)
-   prints what every query (G, Q) observes according to the extracted thread-model replay *)
+(* one merged event trace per line:
+     "tid kind inst msg|tid kind inst msg|..."      error strings (kind: N C F T G Q; msg = message id)  -> ErrState.lreplay
+     "K|tid kind inst w|..."                        error codes   (kind: N C F O K; w = 1 warning-level failure) -> ErrCode.lcreplay
+   prints what every query observes according to the extracted thread-model replay *)
 open X_c15
 let ev_of s =
   match words s with
@@ -9,6 +11,15 @@ let ev_of s =
         | "N" -> ENew i | "C" -> ECall i | "F" -> EFail (i, m) | "T" -> ETlsFail m | "G" -> EGet i | _ -> EGetTls) in
       Some (t, o)
   | _ -> None
+let cev_of s =
+  match words s with
+  | [t; k; i; w] ->
+      let t = nat_of_int (int_of_string t) and i = nat_of_int (int_of_string i) in
+      let o = (match k with
+        | "N" -> CNew i | "C" -> CCall i | "F" -> CFail (i, w = "1") | "K" -> CCode i | _ -> COther) in
+      Some (t, o)
+  | _ -> None
 let () = iter_lines (fun line ->
-  let evs = List.filter_map ev_of (fields line) in
-  print_endline (pr_ints (il (lreplay evs []))))
+  match fields line with
+  | "K" :: rest -> print_endline (pr_ints (il (lcreplay (List.filter_map cev_of rest) [])))
+  | fs -> print_endline (pr_ints (il (lreplay (List.filter_map ev_of fs) []))))
